@@ -157,6 +157,9 @@ def validate_trace(ctx, module, cfg, trace, timeout=600, xmx="3g"):
     """TLC as trace validator. Returns None if accepted else (line_no, record_text)."""
     rc, out = tlc(module, cfg, ctx.work, env={"TRACE": trace}, workers=1, timeout=timeout, xmx=xmx, deque=True)
     gen, dist = tlc_stats(out)
+    for m in re.finditer(r'"DRIFT", (\d+)', out):
+        ctx.drift.append("%s line %s: implementation state differs from the L2 model (L1 still holds)" % (os.path.basename(trace), m.group(1)))
+        break
     if "Model checking completed. No error has been found." in out:
         return None, gen, dist, out
     m = REJECT_RE.search(out)
@@ -256,3 +259,42 @@ def finish(ctx, level="model_checking", rule=None):
         ctx.pid, ctx.tier, ctx.states, ctx.transitions, ctx.traces, ctx.events, ctx.vectors,
         time.time() - ctx.t0, len(real)))
     return 1 if real else 0
+
+
+def gen_and_replay(ctx, module, cfg, family, what, timeout=600, workers=1, extra_replay=None):
+    """spec -> impl: TLC enumerates the behaviours / transitions of a bounded model and prints one JSON
+    line each; the driver replays them into the real code. Mismatch with L1 = violation, with L2 = drift."""
+    t = time.time()
+    rc, out = tlc(module, cfg, ctx.work, workers=workers, timeout=timeout, xmx="4g")
+    gen, dist = tlc_stats(out)
+    if "Model checking completed. No error has been found." not in out:
+        raise ToolError("vector generator %s/%s failed (rc=%s)\n%s" % (module, cfg, rc, out[-3000:]))
+    vec = os.path.join(ctx.work, "vec_%s.ndjson" % cfg.replace(".cfg", ""))
+    n = 0
+    with open(vec, "w") as f:
+        for line in out.splitlines():
+            if line.startswith('"{') or line.startswith('"['):
+                f.write(json.loads(line) + "\n")
+                n += 1
+    if n == 0:
+        raise ToolError("generator %s/%s printed no vectors" % (module, cfg))
+    ctx.states += dist
+    ctx.transitions += gen
+    ctx.mc_runs.append({"module": module, "cfg": cfg, "what": "vector generation: " + what, "generated": gen,
+                        "distinct": dist, "vectors": n, "ok": True, "wall_s": round(time.time() - t, 1)})
+    res = json.loads(rv(["replay", family, "--in", vec] + (extra_replay or []), timeout=1200).strip().splitlines()[-1])
+    ctx.vectors += res["vectors"]
+    ctx.extra.setdefault("replay_steps", 0)
+    ctx.extra["replay_steps"] += res.get("steps", 0)
+    with open(vec) as f:
+        first = f.readline().strip()
+    ctx.sample({"vector": json.loads(first), "from": cfg})
+    if res["mismatches"]:
+        rp = os.path.join(ctx.replays, "vec_%s.json" % cfg.replace(".cfg", ""))
+        json.dump(res["bad"], open(rp, "w"), indent=1)
+        ctx.violation("%d of %d TLC-generated %s behaviours (%s) are not reproduced by the code; first: %s" % (
+            res["mismatches"], res["vectors"], family, what, json.dumps(res["bad"][0])[:300]), rp)
+    if res.get("ndrift") or res.get("drift"):
+        ctx.drift.append("%s: implementation internals differ from the L2 model on %s vectors" % (
+            cfg, res.get("ndrift", len(res.get("drift", [])))))
+    return res
